@@ -9,7 +9,7 @@ func init() {
 			"the keeper passes to the state-change helpers the values it gave to / received from the pool model; the taker fee is the exact difference between what the trader pays and what reaches the pool, and exactly that fee is sent to the collector; the router hands the pool the after-fee coin.",
 		NotCovered:  []string{"bank balance = reported reserves over histories (direct sends are allowed by the statement)", "supply of non-share tokens (bank module semantics)", "cosmwasm pools", "pool-model internals (C04)"},
 		Assumptions: []string{"bank keeper MintCoins/BurnCoins/SendCoins semantics"},
-		MinObl:      28,
+		MinObl:      31,
 		Run:         runC02,
 	})
 }
